@@ -126,6 +126,13 @@ class SerializableAst(msgspec.Struct):
 ModuleBundle = tuple[tuple[str, msgspec.Raw], ...]
 
 
+class _UnresolvedClassTypes(visitors.Visitor):
+  """Replaces every ClassType by an unresolved copy (cls=None)."""
+
+  def VisitClassType(self, node):
+    return pytd.ClassType(node.name)
+
+
 def SerializeAst(ast, src_path=None, metadata=None) -> SerializableAst:
   """Prepares an AST for serialization.
 
@@ -150,8 +157,9 @@ def SerializeAst(ast, src_path=None, metadata=None) -> SerializableAst:
   dependencies = deps.dependencies
   late_dependencies = deps.late_dependencies
 
-  # Clean external references
-  ast.Visit(visitors.ClearClassPointers())
+  # Clean external references. This must not modify the input: its ClassType
+  # nodes are shared with ASTs that stay in use (e.g. the cached builtins).
+  ast = ast.Visit(_UnresolvedClassTypes())
   ast = ast.Visit(visitors.CanonicalOrderingVisitor())
 
   # Clear out the Lookup caches.
